@@ -22,7 +22,8 @@ def run_monitor(case):
         n = (10, 16, 17, 32, 33, 40, 65, 70)[int(xs / 0.08 * 8)]      # maps beyond one byte / one word / 64 sources
     modes = [rnd.choice(["level", "rise", "fall"]) for _ in range(n)]
     em = event.EventMap()
-    srcs = [event.Source(trigger=m) for m in modes]
+    us_ = lib.rng_for(case["seed"], case["idx"], 1351)
+    srcs = [simutil.mk_source(m, us_) for m in modes]
     order = list(range(n))
     for k in order:
         em.add(srcs[k])
@@ -32,7 +33,7 @@ def run_monitor(case):
     pre = lib.rng_for(case["seed"], case["idx"], 1323).random() < 0.25
     if pre:
         Simulator(simutil.wrap(dut))       # a monitor may be elaborated more than once; the second elaboration is checked
-    sim = Simulator(simutil.wrap(dut))
+    sim = simutil.simulator(simutil.wrap(dut), case, p=0)
     sim.add_clock(1e-6)
     lines = ["case " + " ".join(m[0] for m in modes)]
     obs, fails = [], []
